@@ -713,6 +713,7 @@ func (ro *RedisOutput) parseAofCommand(replayQuit usync.WaitCloser, reader *bufi
 	for !replayQuit.IsClosed() {
 		ignoresentinel := false
 		ignoreCmd := false
+		bypassBracket := false
 		selectDB := -1
 
 		resp, incrOffset, err := client.MustDecodeOpt(decoder)
@@ -757,14 +758,19 @@ func (ro *RedisOutput) parseAofCommand(replayQuit usync.WaitCloser, reader *bufi
 				ignoresentinel = true
 			}
 
-			if bypass || ignoreCmd || ignoresentinel {
+			// a transaction bracket is never bypassed : dropping the exec of a transaction that
+			// switched to a blacklisted db would leave the sender inside the transaction forever
+			if bypass && (sCmd == "multi" || sCmd == "exec") {
+				bypassBracket = true
+			}
+			if (bypass && !bypassBracket) || ignoreCmd || ignoresentinel {
 				ro.filterCounterAdd(1)
 				continue
 			}
 		}
 
 		newArgv, reject = ro.outFilter.FilterCmdKey(sCmd, argv)
-		if bypass || reject {
+		if (bypass && !bypassBracket) || reject {
 			ro.filterCounterAdd(1)
 			continue
 		}
